@@ -1,5 +1,7 @@
 import RLV.Lemmas.TermMoves
 import RLV.Gen.KeyStack
+import RLV.Lemmas.AcceptFrame
+import RLV.Props.C04
 /-! C11 — The terminal is restored on every way out of Readline (property theorems).
 
 `Disp.acceptLine` is the model of `display.Engine.AcceptLine` (internal/display/engine.go: the token
@@ -87,11 +89,142 @@ theorem modes_are_saved_then_their_restoration_deferred :
        "if err != nil { return \"\", err }",
        "defer term.Restore(descriptor, state)"] := by decide
 
+/-- C11 with C04 (one-line buffers): `AcceptLine` run after a redisplay erases nothing of the input —
+every cell of the screen is what the redisplay left (the prompt, the buffer, blanks after it) — and
+leaves the cursor at the start of the first row below the input. For EVERY width, prompt, buffer
+without newline, cursor position, screen row and previous contents of the screen. -/
+theorem accepting_after_a_redisplay_keeps_the_line_on_screen_partial (w : Nat) (prompt sec l : List Nat)
+    (pos prevRow r0 : Nat) (t : Term)
+    (hw : t.w = w) (hwf : t.WF) (hy : t.y = r0 + prevRow)
+    (hnl : 10 ∉ l) (hpos : pos ≤ l.length) (hpr : prompt.length < w) :
+    let t1 := t.run (refresh w prompt sec prevRow false l pos)
+    let t2 := t1.run (acceptLine w prompt l pos)
+    (∀ r c, c < w → t2.cell r c = t1.cell r c) ∧ t2.x = 0 ∧
+      t2.y = r0 + (prompt.length + l.length) / w + 1 := by
+  intro t1 t2
+  have hw0 : 0 < w := by omega
+  obtain ⟨hc1, hx1, hy1, hpw1⟩ := RLV.Props.C04.redisplay_shows_exactly_the_buffer_partial w prompt sec l pos prevRow r0 t
+    hw hwf hy hnl hpos hpr
+  have hw1 : t1.w = w := by show (t.run _).w = w; rw [run_w]; exact hw
+  have hcc := coordsCursor_single w l pos prompt.length hnl hpos
+  have hcl := coordsLine_single w l prompt.length hnl
+  have e1 : pos + prompt.length = prompt.length + pos := Nat.add_comm _ _
+  have e2 : l.length + prompt.length = prompt.length + l.length := Nat.add_comm _ _
+  -- the cursor
+  obtain ⟨hx2, hy2⟩ := accept_leaves_the_cursor_on_a_fresh_row w prompt l pos r0 t1 hw1 hw0
+    (by rw [hcc, e1]; exact hx1) (by rw [hcc, e1]; exact hy1)
+  rw [hcl, e2] at hy2
+  refine ⟨?_, hx2, hy2⟩
+  -- the cells
+  have hac := accept_cells w prompt.length ((prompt.length + pos) % w) ((prompt.length + pos) / w)
+    ((prompt.length + l.length) / w) ((prompt.length + l.length) % w) r0 t1 hw1 hw0 hx1 hy1 hpw1
+    (Nat.mod_lt _ hw0) hpr
+  have htok : acceptLine w prompt l pos =
+      mv .cub (((prompt.length + pos) % w : Nat)) ++ mv .cuu (((prompt.length + pos) / w : Nat)) ++
+        mv .cuf (prompt.length : Nat) ++ [.dsr] ++ mv .cub w ++ mv .cud (((prompt.length + l.length) / w : Nat)) ++
+        mv .cuf (((prompt.length + l.length) % w : Nat)) ++ [.ed0] ++ mv .cub w ++ [.crlf] := by
+    unfold acceptLine
+    dsimp only
+    rw [hcc, hcl, e1, e2]
+  intro r c hc
+  show (t1.run (acceptLine w prompt l pos)).cell r c = _
+  rw [htok, hac r c hc]
+  have hlin : (r0 + (prompt.length + l.length) / w) * w + (prompt.length + l.length) % w
+      = r0 * w + (prompt.length + l.length) := by
+    rw [Nat.add_mul]
+    have := Nat.div_add_mod (prompt.length + l.length) w
+    rw [Nat.mul_comm] at this
+    omega
+  rw [hlin]
+  by_cases h : r0 * w + (prompt.length + l.length) ≤ r * w + c
+  · rw [if_pos h, hc1 r c hc]
+    have n1 : ¬ (r * w + c < r0 * w) := by omega
+    have n2 : ¬ (r * w + c < r0 * w + (prompt.length + l.length)) := by omega
+    rw [if_neg n1, if_neg n2]
+  · rw [if_neg h]
+
+/-- C11 with C04 (buffers of two lines or more): `AcceptLine` run after a redisplay erases nothing of
+the input — every cell is what the redisplay left: the prompt, each line on its rows, the secondary
+prompt, blanks — and leaves the cursor at the start of the first row below the last line. For EVERY
+width, prompt, secondary prompt, lines without newline, cursor line and offset, screen row and
+previous contents of the screen. -/
+theorem accepting_after_a_redisplay_keeps_the_lines_on_screen_partial (w : Nat) (prompt sec first last : List Nat)
+    (rest : List (List Nat)) (k o prevRow r0 : Nat) (t : Term)
+    (hw : t.w = w) (hwf : t.WF) (hy : t.y = r0 + prevRow)
+    (hrest : rest ≠ []) (hfree : ∀ ln ∈ first :: rest, 10 ∉ ln) (hlast : rest.getLast? = some last)
+    (hk : k < (first :: rest).length) (ho : o ≤ ((first :: rest).getD k []).length) (hpr : prompt.length < w) :
+    let pos := ((((first :: rest).take k).map List.length).map (· + 1)).sum + o
+    let t1 := t.run (refresh w prompt sec prevRow false (joinNL (first :: rest)) pos)
+    let t2 := t1.run (acceptLine w prompt (joinNL (first :: rest)) pos)
+    (∀ r c, c < w → t2.cell r c = t1.cell r c) ∧ t2.x = 0 ∧
+      t2.y = r0 + (blockRows w prompt.length first + rowsOfLines w prompt.length rest) := by
+  intro pos t1 t2
+  have hw0 : 0 < w := by omega
+  obtain ⟨hc1, hx1, hy1, hpw1⟩ := RLV.Props.C04.redisplay_shows_exactly_the_lines_partial w prompt sec first last
+    rest k o prevRow r0 t hw hwf hy hrest hfree hlast hk ho hpr
+  have hw1 : t1.w = w := by show (t.run _).w = w; rw [run_w]; exact hw
+  have hne : first :: rest ≠ [] := by simp
+  have hcc := coordsCursor_join w prompt.length (first :: rest) k o hne hfree hk ho
+  have hcl := coordsLine_join w prompt.length (first :: rest) hne hfree
+  have hgl : (first :: rest).getLast hne = last := by
+    have h1 : (first :: rest).getLast? = some last := by
+      cases rest with
+      | nil => exact absurd rfl hrest
+      | cons b tl => simpa using hlast
+    rw [List.getLast?_eq_some_getLast hne] at h1
+    exact Option.some.inj h1
+  rw [hgl, rowsFrom_cons0, rowsOfLines_dropLast w prompt.length rest last hlast] at hcl
+  obtain ⟨hx2, hy2⟩ := accept_leaves_the_cursor_on_a_fresh_row w prompt (joinNL (first :: rest)) pos r0 t1 hw1 hw0
+    (by rw [hcc]; exact hx1) (by rw [hcc]; exact hy1)
+  have hac := accept_after w prompt (joinNL (first :: rest)) pos r0 t1 hw1 hw0
+    (by rw [hcc]; exact hx1) (by rw [hcc]; exact hy1) hpw1 (by rw [hcl]; exact Nat.mod_lt _ hw0) hpr
+  rw [hcl] at hy2 hac
+  refine ⟨?_, hx2, ?_⟩
+  · intro r c hc
+    show (t1.run (acceptLine w prompt (joinNL (first :: rest)) pos)).cell r c = _
+    rw [hac r c hc]
+    dsimp only
+    generalize hB : blockRows w prompt.length first = B
+    generalize hR : rowsOfLines w prompt.length rest.dropLast = R
+    have hBv : B = (first.length + prompt.length) / w + 1 := by rw [← hB]; rfl
+    have hbl : blockRows w prompt.length last = (last.length + prompt.length) / w + 1 := rfl
+    have hlin : (r0 + ((first.length + prompt.length) / w + (R + blockRows w prompt.length last))) * w +
+        (last.length + prompt.length) % w = r0 * w + (B * w + R * w + (last.length + prompt.length)) := by
+      rw [hbl, hBv]
+      have := Nat.div_add_mod (last.length + prompt.length) w
+      rw [Nat.mul_comm] at this
+      simp only [Nat.add_mul, Nat.one_mul]
+      omega
+    rw [hlin]
+    by_cases h : r0 * w + (B * w + R * w + (last.length + prompt.length)) ≤ r * w + c
+    · rw [if_pos h, hc1 r c hc]
+      have n1 : ¬ (r * w + c < r0 * w) := by omega
+      rw [if_neg n1]
+      exact (frameCell_after_end w prompt sec first last rest _ hlast (by rw [hB, hR]; omega)).symm
+    · rw [if_neg h]
+  · rw [hy2]
+    dsimp only
+    rw [rowsOfLines_dropLast w prompt.length rest last hlast]
+    show _ = r0 + ((first.length + prompt.length) / w + 1 + _)
+    omega
+
 -- non-vacuity of the cursor theorem: a buffer of two rows at width 10, cursor in the first row
 example :
     let t : Term := { w := 10, cell := fun _ _ => 32, x := 5, y := 3, pw := false }
     (coordsCursor 10 [97, 98, 99, 10, 100] 3 2 = (5, 0)) ∧
     (t.run (acceptLine 10 [62, 32] [97, 98, 99, 10, 100] 3)).x = 0 ∧
     (t.run (acceptLine 10 [62, 32] [97, 98, 99, 10, 100] 3)).y = 3 + 1 + 1 := by decide
+
+-- non-vacuity of the composed theorems: width 6, prompt "> ", buffer "ab\ncdefgh\ni", cursor on the `f`:
+-- after the redisplay and AcceptLine the three lines are still there, the cursor is on row 5
+example :
+    let t : Term := { w := 6, cell := fun _ _ => 63, x := 3, y := 2, pw := false }
+    let l := joinNL [[97, 98], [99, 100, 101, 102, 103, 104], [105]]
+    let t2 := (t.run (refresh 6 [62, 32] [9492, 32] 1 false l (3 + 3))).run (acceptLine 6 [62, 32] l (3 + 3))
+    ((List.range 6).map fun r => (List.range 6).map fun c => t2.cell r c) =
+      [[63, 63, 63, 63, 63, 63], [62, 32, 97, 98, 32, 32], [32, 32, 99, 100, 101, 102],
+       [103, 104, 32, 32, 32, 32], [9492, 32, 105, 32, 32, 32], [32, 32, 32, 32, 32, 32]] ∧
+    (t2.x, t2.y) = (0, 1 + (1 + 3)) := by
+  decide
 
 end RLV.Props.C11
